@@ -255,12 +255,7 @@ impl LineAttribution {
 // ---------------------------------------------------------------- vocabulary for the three-way split (region split_classify)
 /// (a, v) is recorded in the per-author map
 pub open spec fn map_mem(m: StdHashMap<String, Vec<u32>>, a: String, v: u32) -> bool { m@.contains_key(a) && m@[a]@.contains(v) }
-/// number of entries among the first n of s that are smaller than w
-pub open spec fn cb(s: Seq<u32>, n: int, w: int) -> int
-    decreases n
-{
-    if n <= 0 { 0 } else { cb(s, n - 1, w) + (if s[n - 1] < w { 1int } else { 0int }) }
-}
+//#include ../_shared/count_below.inc.rs
 /// number of unstaged lines strictly above working-tree line w: what is subtracted to obtain the commit line number
 pub open spec fn below(us: Seq<u32>, w: int) -> int { cb(us, us.len() as int, w) }
 pub open spec fn in_hunks(h: Option<&Vec<LineRange>>, c: int) -> bool { h is Some && ranges_have(h.unwrap()@, c) }
